@@ -231,6 +231,9 @@ func hookYield(kind int, obj uintptr, a, b int64) int64 {
 // called on the scheduler goroutine.
 var PoolHookFunc func(get bool, n, choice int)
 
+//go:norace
+func hookMulti() bool { s := theSim; return s != nil && s.multi }
+
 // OrderFunc is consulted by simsync.MapOrder when non-nil (single-threaded
 // checks install it per run).
 var OrderFunc func(keys any)
@@ -246,7 +249,7 @@ func hookOrder(keys any) {
 // watchdog.
 func InstallHooks() {
 	once.Do(func() {
-		simsync.Install(simsync.Hooks{Active: hookActive, Yield: hookYield, Order: hookOrder})
+		simsync.Install(simsync.Hooks{Active: hookActive, Yield: hookYield, Order: hookOrder, Multi: hookMulti})
 		go watchdog()
 	})
 }
@@ -588,7 +591,7 @@ func (s *Sim) lock(id int) *lockState {
 
 // DetachAfter is how long the scheduler waits for the running thread's next
 // message before it detaches it and goes on with the others.
-var DetachAfter = 250 * time.Millisecond
+var DetachAfter = 3 * time.Second
 
 // accept waits for the message the running thread t sends when it parks.
 // Messages from detached threads that have come back are taken in passing. If t
